@@ -40,5 +40,6 @@ Sane == /\ \A k \in 0..5 : MustCheck(Cfg, 0..(k - 1)) \subseteq Relevant(Cfg)
 
 Emit == PrintT(ToJson([gen |-> "tasks", tool |-> tool, base |-> base, nenv |-> nenv,
                        table |-> SetToSeq(Cfg.table), relevant |-> SetToSeq(Relevant(Cfg)),
-                       must |-> [k \in 1..6 |-> SetToSeq(MustCheck(Cfg, 0..(k - 2)))]]))
+                       must |-> [k \in 1..6 |-> SetToSeq(MustCheck(Cfg, 0..(k - 2)))],
+                       rmin |-> SetToSeq({<<p[1], p[2], Rmin(Cfg, p)>> : p \in Relevant(Cfg)})]))
 =============================================================================
